@@ -41,6 +41,6 @@ ASSUME JsonSerialize("sasl_pool.json", [
 VARIABLE x
 EInit == /\ x = 0 /\ role = "client" /\ local = <<>> /\ adv = <<>> /\ pc = "idle" /\ selected = None
          /\ stepIdx = 0 /\ mechDone = FALSE /\ mechErr = FALSE /\ successSeen = FALSE
-         /\ permitted = "none" /\ authn = FALSE /\ npeer = 0
+         /\ permitted = "none" /\ authn = FALSE /\ npeer = 0 /\ sess = 1
 ENext == UNCHANGED <<x, vars>>
 =============================================================================
